@@ -119,7 +119,7 @@ void verif_run(verif::Args const& a, verif::Evidence& ev)
     ev.rule = "virtual_2d_locator root (functor returning the identity tag of the coordinate; origin -5..5, steps {1,2,3,-1,-2}), rgb8/gray16/rgba8, shapes 0..9, programs of up to 4 of flip/transpose/rotate/subimage/subsample "
               "-> dimensions and EVERY pixel through operator(), row_begin, col_begin, xy_at, at, begin()[i] equal the functor at the model's root coordinate; color_converted_view and nth_channel_view on top. "
               "non-trivial: non-empty view and non-empty program; distinct = all keys but the tag seed.";
-    verif::rc_search(ev, a, "virtual", a.thorough() ? 300000 : 20000, 60, gen_virtual, run_virtual, [](Case const& c) { return c.get("w") > 0 && c.get("h") > 0 && !c.list("prog").empty(); },
+    verif::rc_search(ev, a, "virtual", a.thorough() ? 900000 : 20000, 60, gen_virtual, run_virtual, [](Case const& c) { return c.get("w") > 0 && c.get("h") > 0 && !c.list("prog").empty(); },
                      {"type", "w", "h", "ox", "oy", "sx", "sy", "prog", "chan"});
 }
 VERIF_MAIN("c02_virtual")
